@@ -7,7 +7,7 @@ pub mod walk;
 
 pub use gen::GenOpts;
 pub use print::Space;
-pub use walk::PrintEvent;
+pub use walk::{CallEvent, PrintEvent};
 
 use crate::engine::Case;
 use crate::programs::Picked;
@@ -20,6 +20,8 @@ pub struct W2Prog {
     pub events: Vec<PrintEvent>,
     pub stdout: Vec<u8>,
     pub pos: Vec<Option<(u64, u64)>>,
+    pub tok_off: Vec<Option<u64>>,
+    pub calls: Vec<CallEvent>,
     pub feats: Vec<Vec<String>>,
     pub site: Vec<String>,
     pub spaces: Vec<Space>,
@@ -53,6 +55,7 @@ pub fn build(aux: &J) -> W2Prog {
     let mut w = walk::Walker::new(&prog, &removed);
     w.run();
     let overflow = w.overflow;
+    let calls = w.calls.clone();
     let events = w.events;
     let mut stdout = vec![];
     for e in &events {
@@ -74,6 +77,8 @@ pub fn build(aux: &J) -> W2Prog {
         events,
         stdout,
         pos: p.pos.clone(),
+        tok_off: p.tok_off.clone(),
+        calls,
         feats: p.feats.clone(),
         site: prog.site.clone(),
         spaces,
